@@ -1,3 +1,40 @@
-/* zdict.c with fresh malloc blocks filled (zvh_train_fill.h) */
+/* zdict.c with fresh malloc blocks filled (zvh_train_fill.h).
+ * Legacy trainer (C18): the table of candidate segments (dictItem table, ZDICT_insertDictItem) is
+ *   (a) watched during ZDICT_trainFromBuffer_legacy runs: the block whose size is the table's (zvt_watch_* set by zvh_train.c) is remembered and its slot 0
+ *       (table->pos = used slots, slot 0 included) is sampled at every later free() of this translation unit: zvt_tbl_pos / zvt_tbl_entries tell whether a run
+ *       really FILLED its table (pos == entries) - coverage, printed as tbl=<pos>/<entries>;
+ *   (b) driven at function level (zvt_dins): candidates that merge with nothing inserted into a table of exactly maxSize slots (a malloc block of exactly that size:
+ *       a write to slot maxSize is a sanitizer report), answer compared with Train.insertAll. */
 #include "zvh_train_fill.h"
+void* zvt_zdict_malloc(size_t n); void zvt_zdict_free(void* p);
+#undef malloc
+#define malloc(n) zvt_zdict_malloc(n)
+#define free(p) zvt_zdict_free(p)
 #include "zdict.c"   /* found through -I<repo>/… (tools/build.py), so that ZV_REPO can point at another checkout */
+#undef malloc
+#undef free
+
+int zvt_watch_legacy; unsigned zvt_watch_nb; size_t zvt_watch_cap; size_t zvt_tbl_pos, zvt_tbl_entries; static void* g_tbl;
+void* zvt_zdict_malloc(size_t n) {
+    void* const p = zvt_fill_malloc(n);
+    if (zvt_watch_legacy && !g_tbl && p && n == (size_t)MAX(MAX(DICTLISTSIZE_DEFAULT, zvt_watch_nb), (U32)(zvt_watch_cap / 16)) * sizeof(dictItem)) { g_tbl = p; zvt_tbl_entries = n / sizeof(dictItem); zvt_tbl_pos = 0; }
+    return p;
+}
+void zvt_zdict_free(void* p) {
+    if (g_tbl) { if (p == g_tbl) g_tbl = NULL; else { size_t const used = ((const dictItem*)g_tbl)->pos; if (used > zvt_tbl_pos) zvt_tbl_pos = used; } }
+    free(p);
+}
+
+/* n candidates with savings sv[0..n) inserted in this order into a fresh table of maxSize (>= 2) slots.  Candidate i sits at position 32*i + 16 of a buffer in
+ * which no two of them overlap, touch, or contain one another (ZDICT_tryMerge finds nothing: the 8 bytes at a candidate's start begin with FF, the 8 bytes one
+ * further with 00), length 8 + i % 9.  Prints table->pos and the used slots in rank order as <candidate>:<savings>. */
+void zvt_dins(unsigned maxSize, const unsigned* sv, unsigned n) {
+    dictItem* const table = (dictItem*)malloc((size_t)maxSize * sizeof(dictItem)); size_t const bsz = (size_t)n * 32 + 96; unsigned char* const buf = (unsigned char*)calloc(1, bsz); unsigned i;
+    for (i = 0; i < n; i++) { unsigned char* q = buf + 32 * (size_t)i + 16; q[0] = 0xFF; q[1] = 0; q[2] = (unsigned char)i; q[3] = (unsigned char)(i >> 8); q[4] = (unsigned char)(i >> 16); }
+    ZDICT_initDictItem(table);
+    for (i = 0; i < n; i++) { dictItem e; e.pos = 32 * i + 16; e.length = 8 + i % 9; e.savings = sv[i]; ZDICT_insertDictItem(table, maxSize, e, buf); }
+    printf("pos=%u items=", (unsigned)table->pos);
+    if (table->pos <= 1) printf("-");
+    for (i = 1; i < table->pos && i < maxSize; i++) printf("%s%u:%u", i > 1 ? "," : "", (unsigned)((table[i].pos - 16) / 32), (unsigned)table[i].savings);
+    printf("\n"); free(table); free(buf);
+}
